@@ -41,6 +41,108 @@ def impl_initialize(ids, aams, offset):
     return [[g.nodes[n].get("aam") for n in g.nodes], raised]
 
 
+def _aams(g):
+    return [g.nodes[n].get("aam") for n in g.nodes]
+
+
+def apply_edits(g, edits):
+    """edit the atom map of the SAME graph object in place"""
+    for e in edits:
+        if e[0] == "del":
+            g.nodes[e[1]].pop("aam", None)
+        elif e[0] == "set":
+            g.nodes[e[1]]["aam"] = e[2]
+        elif e[0] == "add":
+            if e[2] is None:
+                g.add_node(e[1], symbol="C")
+            else:
+                g.add_node(e[1], symbol="C", aam=e[2])
+
+
+def impl_two_step_complete(ids, aams, offset1, edits, offset2):
+    """ONE graph object, two calls: complete_aam(g, offset1); the map is edited in place (numbers removed / changed,
+    mapped and unmapped atoms added); complete_aam(g, offset2).  Returns (out1, map before the 2nd call, out2):
+    each call must meet the specification w.r.t. the graph AS IT IS WHEN THE CALL IS MADE (no state kept per object)."""
+    from fgutils.utils import complete_aam
+    g = mk_graph(ids, aams)
+    out1 = call_impl(lambda: (complete_aam(g, offset=offset1), _aams(g))[1])
+    apply_edits(g, edits)
+    before2 = _aams(g)
+    out2 = call_impl(lambda: (complete_aam(g, offset=offset2), _aams(g))[1])
+    return out1, before2, out2
+
+
+def impl_two_step_initialize(ids, aams, offset1, wipe, offset2):
+    """ONE graph object, two calls of initialize_aam; between them the map is wiped in place (`wipe`) or kept.
+    Returns (result1, (ids, map) before the 2nd call, result2) with result = [map afterwards, raised]"""
+    from fgutils.utils import initialize_aam
+
+    def one(off):
+        raised = False
+        try:
+            initialize_aam(g, offset=off)
+        except RuntimeError:
+            raised = True
+        return [_aams(g), raised]
+
+    g = mk_graph(ids, aams)
+    res1 = call_impl(one, offset1)
+    if wipe:
+        for n in g.nodes:
+            g.nodes[n].pop("aam", None)
+    before2 = _aams(g)
+    res2 = call_impl(one, offset2)
+    return res1, before2, res2
+
+
+def gen_edits(rng, ids, n_after_first):
+    """edits of a completely mapped graph: remove some numbers, change one, add mapped / unmapped atoms"""
+    edits = []
+    ids = list(ids)
+    for n in ids:
+        if rng.random() < 0.35:
+            edits.append(["del", n])
+    if ids and rng.random() < 0.3:
+        edits.append(["set", rng.choice(ids), rng.randint(-2, 2 * len(ids) + 6)])
+    nxt = (max(ids) if ids else -1) + 1
+    for _ in range(rng.choice([0, 1, 1, 2, 3])):
+        if rng.random() < 0.5:
+            edits.append(["add", nxt, None])
+        else:
+            edits.append(["add", nxt, rng.randint(0, 2 * len(ids) + 8)])
+        nxt += rng.randint(1, 3)
+    if not edits and ids:
+        edits.append(["del", ids[0]])
+    return edits
+
+
+def woff(offset):
+    return Atom("min") if offset == "min" else offset
+
+
+def two_step_cases(rng, ids, aams, offset):
+    """cases of a two-call scenario on one graph object (state across calls / in-place edits)"""
+    cases = []
+    offset2 = rng.choice([None, "min", rng.randint(-2, len(ids) + 3)])
+    edits = gen_edits(rng, ids, None)
+    out1, before2, out2 = impl_two_step_complete(ids, aams, offset, edits, offset2)
+    meta = {"two_step": "complete", "ids": ids, "aams": aams, "offset": offset, "edits": edits, "offset2": offset2}
+    cases.append(Case([Atom("C20"), Atom("complete"), woff(offset), aams], out1, meta=dict(meta, call=1),
+                      tags=("complete", "two_step:first_call")))
+    cases.append(Case([Atom("C20"), Atom("complete"), woff(offset2), before2], out2, meta=dict(meta, call=2),
+                      nontrivial_key=("c2", tuple(before2), offset2) if any(a is None for a in before2) else None,
+                      tags=("complete", "two_step:second_call_same_object_after_in_place_edit")))
+    if ids:
+        wipe = rng.random() < 0.6
+        o1, o2 = rng.randint(-2, 5), rng.randint(-2, 5)
+        res1, b2, res2 = impl_two_step_initialize(ids, aams, o1, wipe, o2)
+        meta = {"two_step": "initialize", "ids": ids, "aams": aams, "offset": o1, "wipe": wipe, "offset2": o2}
+        cases.append(Case([Atom("C20"), Atom("initialize"), o2, [[i, a] for i, a in zip(ids, b2)]], res2, meta=meta,
+                          nontrivial_key=("i2", tuple(ids), tuple(b2), o2),
+                          tags=("initialize", "two_step:second_call_same_object", "wiped_between" if wipe else "kept_between")))
+    return cases
+
+
 def gen_case(rng, big=False):
     n = rng.randint(0, 14 if not big else 40)
     ids = rng.sample(range(0, 3 * n + 3), n)
@@ -95,6 +197,8 @@ def run(tier, seed):
         cases.append(Case(req, out, meta={"ids": ids, "offset": offset, "via_ITS": via_its}, nontrivial_key=key,
                           tags=("complete", "offset=%s" % ("int" if isinstance(offset, int) else offset),
                                 "via_its" if via_its else "direct", "mapped>6" if sum(a is not None for a in aams) > 6 else "mapped<=6")))
+        if k % 5 == 2:
+            cases += two_step_cases(rng, ids, aams, offset)
         if k % 4 == 0:
             off = rng.randint(-2, 5)
             out = call_impl(impl_initialize, ids, aams, off)
@@ -105,11 +209,15 @@ def run(tier, seed):
     r.assumptions = [
         "networkx node iteration order is modelled as a list; the graph enters complete_aam only through it and the aam attribute",
         "Python int is modelled by Lean Int (unbounded on both sides)",
+        "the functions are modelled as stateless: every call is judged against the graph as it is when the call is made; "
+        "two-call scenarios on ONE graph object (complete_aam, in-place edit of the map - numbers removed/changed, mapped and "
+        "unmapped atoms added -, complete_aam again; initialize_aam twice with the map wiped or kept in between) check that "
+        "no state is kept per object across calls (tags two_step:*)",
     ]
     return r.finish(
         level="proof",
         rule="random node lists (0-40 nodes, shuffled/sparse ids) x partial maps (gaps, duplicates, negatives, dense blocks) x offset in {None,int,'min'}, "
-             "30% of the 'min' cases through ITS(graph); non-trivial = partial map with at least one mapped and one unmapped node, distinct by (map, offset)",
+             "30% of the 'min' cases through ITS(graph); every 5th input also as a two-call scenario on one graph object with in-place edits between the calls; non-trivial = partial map with at least one mapped and one unmapped node, distinct by (map, offset)",
         checker_cmd="cd lean && lake build FGVerif.Proofs.C20 && lake env lean FGVerif/Audit/C20.lean",
         explanation="theorems in lean/FGVerif/Proofs/C20.lean about Model/C20.lean; model tied to fgutils.utils.complete_aam/initialize_aam by differential testing; "
                     "executable spec C20.specCheck applied to every implementation output")
@@ -134,4 +242,35 @@ def replay(path):
         aams = [opt(p[1]) for p in req[3]]
         return call_impl(impl_initialize, ids, aams, off)
 
+    rec = json.load(open(path))
+    meta = rec.get("meta") or {}
+    if meta.get("two_step"):
+        # re-run the whole two-call scenario on one graph object; judge the recorded call
+        from common import build, Driver, Outcome
+        if meta["two_step"] == "complete":
+            out1, before2, out2 = impl_two_step_complete(meta["ids"], meta["aams"], meta["offset"], meta["edits"], meta["offset2"])
+            if meta.get("call") == 1:
+                case = Case([Atom("C20"), Atom("complete"), woff(meta["offset"]), meta["aams"]], out1)
+            else:
+                case = Case([Atom("C20"), Atom("complete"), woff(meta["offset2"]), before2], out2)
+        else:
+            res1, b2, res2 = impl_two_step_initialize(meta["ids"], meta["aams"], meta["offset"], meta["wipe"], meta["offset2"])
+            case = Case([Atom("C20"), Atom("initialize"), meta["offset2"], [[i, a] for i, a in zip(meta["ids"], b2)]], res2)
+        if not build([]).driver_ok:
+            print("ERROR driver does not build")
+            return 2
+        d = Driver()
+        o = Outcome(case, d.ask(case.line()))
+        d.close()
+        print("re-ran the two-call scenario (%s) on one graph object" % meta["two_step"])
+        print("request:", case.line()[:2000])
+        print("reply:  ", o.reply)
+        if not o.ok_reply:
+            return 2
+        if o.spec_fail:
+            print("VIOLATION property=C20 replay=%s" % path)
+            return 1
+        if not o.corr:
+            print("correspondence: model and implementation outputs differ on this input (spec holds)")
+        return 0
     return generic_replay("C20", path, reimpl)
